@@ -212,6 +212,19 @@ fn timing_part(out: &mut Out, thorough: bool, rng: &mut Rng) {
                 c.watchdog_ms = 20_000;
                 c.perturb = if rng.chance(1, 2) { 0 } else { 1 + rng.next() % 1000 };
                 cfgs.push(c);
+                if strat != "sim" && t >= 2 {
+                    // NARROW frontier (an endless chain: one pending state at any time): the worker that holds it never
+                    // shares, its colleagues are PARKED in the job market when the timeout expires — they must be woken
+                    let mut c = RunCfg::new(
+                        ModelSpec { shape: Shape::Chain { fuse: u64::MAX >> 8, spin: 2000 }, seed: 1, props: vec![pr(0, 0, 0)], panic_at: None, panic_thread: None },
+                        strat, t,
+                    );
+                    c.timeout_ms = Some(ms);
+                    c.record = false;
+                    c.closure_cap = 50;
+                    c.watchdog_ms = 20_000;
+                    cfgs.push(c);
+                }
                 if strat == "sim" {
                     // traces that NEVER end (two endless lanes), an eventually-property that never holds: the timeout
                     // interrupts every worker in the middle of a trace; no counterexample may be reported for a trace
